@@ -436,7 +436,7 @@ def classify(c, reason):
         if not m or m.group(1) != c.payload.get("pyscript"):
             # the model does not reproduce this behaviour: not one of the modelled (known) deviations
             return "unmodelled:" + "+".join(sorted(f))
-    for k in ("baseexception", "with-multi", "with-enter-raises"):      # recorded known findings (C02-F1 is fixed)
+    for k in ("baseexception",):      # the only open finding (C02-F1..F3 are fixed and must never be excused)
         if k in f:
             return k
     return "other:" + "+".join(sorted(f))
